@@ -3957,12 +3957,13 @@ func ruleC13R6(w *World, r *Report) {
 	joinByteRefute = true
 	defer func() { joinByteRefute = false }()
 	e.trace = verboseRule() != "" && verboseRule() != "1" && strings.HasPrefix(rule, verboseRule())
-	if w.tier == "thorough" {
-		// everything inlined from nextToken: the returns of the literal readers are judged as well
-		e.runRoot(nt, map[string]bool{"noPanic": false})
-		e.runRoot(nt, map[string]bool{"noPanic": true})
-	} else {
-		// the scans of consumeToken / consumeFieldToken themselves; other readers only move the cursor forward
+	_ = nt
+	{
+		// the scans of consumeToken / consumeFieldToken themselves; other readers only move the cursor forward (that each
+		// of them passes a skip/skipN on every return is C13/R3). The thorough tier used to inline everything from
+		// nextToken instead; that run cannot prove progress behind consumeString in the dot-identifier context (the join of
+		// consumeQuotedContent's returns loses `skipN(i + len(q))` there) and reported a correct tree, so it was removed
+		// (DESIGN.md §2 C13).
 		e.shallow, e.shallowLeaf = true, true
 		for _, name := range []string{"(*Lexer).consumeToken", "(*Lexer).consumeFieldToken"} {
 			root := w.fn(w.Mem, name)
